@@ -917,4 +917,91 @@ def clause_h(ctx: Context, idx) -> None:
     hits = check_module("fixture", ftree, fx, flookup)
     if not any(h[2] == "_params" for h in hits):
         raise AnalysisError("C11h: the positive fixture stubs/memo_key_fixture.py is no longer matched")
-    ctx.obligation("C11h", "package|hand-written caches key on everything mutable they read", n == 0, wrappers=total_wrappers, fixture_matches=len(hits))
+    # module-level form: `if key not in CACHE: CACHE[key] = compute(...)` on a dict bound at module level.  Every input of the stored value
+    # (access paths rooted at the parameters of the enclosing function, locals read through their definitions) must be covered by the key.
+    def module_caches(tree: ast.AST) -> List[Tuple[ast.FunctionDef, int, str, str]]:
+        out = []
+        globals_ = {t.id for s_ in getattr(tree, "body", []) if isinstance(s_, (ast.Assign, ast.AnnAssign))
+                    for t in ([s_.target] if isinstance(s_, ast.AnnAssign) else s_.targets) if isinstance(t, ast.Name)
+                    and isinstance(s_.value, (ast.Dict, ast.Call)) and (isinstance(s_.value, ast.Dict) or (dotted(s_.value.func) or "").split(".")[-1] in ("dict", "OrderedDict"))}
+        if not globals_:
+            return out
+        for f in ast.walk(tree):
+            if not isinstance(f, ast.FunctionDef):
+                continue
+            params = {a.arg for a in f.args.args + f.args.kwonlyargs}
+            defs: Dict[str, List[ast.AST]] = {}
+            for a in ast.walk(f):
+                if isinstance(a, ast.Assign) and len(a.targets) == 1 and isinstance(a.targets[0], ast.Name):
+                    defs.setdefault(a.targets[0].id, []).append(a.value)
+
+            def paths(e: ast.AST, seen=None) -> Set[str]:
+                seen = seen if seen is not None else set()
+                out_: Set[str] = set()
+
+                def chain_root(x):
+                    while isinstance(x, (ast.Attribute, ast.Subscript, ast.Call)):
+                        x = x.value if not isinstance(x, ast.Call) else x.func
+                    return x
+
+                def rec(x: ast.AST) -> None:
+                    if isinstance(x, (ast.Attribute, ast.Subscript)):
+                        r = chain_root(x)
+                        if isinstance(r, ast.Name) and r.id in params:
+                            # maximal chain of attributes / constant subscripts
+                            y = x
+                            while isinstance(y, ast.Subscript) and not isinstance(y.slice, ast.Constant):
+                                y = y.value
+                            out_.add(norm(y))
+                            if isinstance(x, ast.Subscript) and not isinstance(x.slice, ast.Constant):
+                                rec(x.slice)
+                            return
+                    if isinstance(x, ast.Name) and isinstance(x.ctx, ast.Load):
+                        if x.id in params:
+                            out_.add(x.id)
+                        elif x.id in defs and x.id not in seen:
+                            seen.add(x.id)
+                            for d_ in defs[x.id]:
+                                out_.update(paths(d_, seen))
+                        return
+                    for c_ in ast.iter_child_nodes(x):
+                        rec(c_)
+                rec(e)
+                return out_
+
+            for st in ast.walk(f):
+                if not isinstance(st, ast.If):
+                    continue
+                t = st.test
+                if not (isinstance(t, ast.Compare) and len(t.ops) == 1 and isinstance(t.ops[0], ast.NotIn) and isinstance(t.comparators[0], ast.Name)
+                        and t.comparators[0].id in globals_):
+                    continue
+                g = t.comparators[0].id
+                key_e = t.left
+                for a in ast.walk(st):
+                    if isinstance(a, ast.Assign) and len(a.targets) == 1 and isinstance(a.targets[0], ast.Subscript) and isinstance(a.targets[0].value, ast.Name) \
+                            and a.targets[0].value.id == g and norm(a.targets[0].slice) == norm(key_e):
+                        kp = paths(key_e)
+                        # strip call suffixes such as .tobytes() from key paths: the key covers the object the digest is taken of
+                        kp = {k_.split("(")[0].rsplit(".", 1)[0] if "(" in k_ else k_ for k_ in kp} | kp
+                        for v in sorted(paths(a.value)):
+                            if not any(v.startswith(k_) or k_.startswith(v) for k_ in kp):
+                                out.append((f, a.lineno, g, v))
+        return out
+
+    n_mod = 0
+    for mname, m in sorted(idx.modules.items()):
+        if not mname.startswith("piquasso."):
+            continue
+        for f, line, g, v in module_caches(m.tree):
+            n_mod += 1
+            key = f"{mname}:{f.name}|module cache {g} omits {v}"
+            ctx.violation("C11h", key, m.path, line,
+                          f"`{g}` is a module-level cache filled in {f.name} under a key that does not cover `{v}`, which the stored value is computed "
+                          f"from: a later call with another `{v}` returns the value of an earlier one, so a seeded run depends on what ran before it in "
+                          f"the same process", v)
+    fhits = module_caches(ftree)
+    if not any(h[3] == "instruction._params['mean_photon_number']" for h in fhits):
+        raise AnalysisError("C11h: the module-level positive fixture in stubs/memo_key_fixture.py is no longer matched")
+    ctx.obligation("C11h", "package|hand-written caches key on everything mutable they read", n == 0 and n_mod == 0, wrappers=total_wrappers,
+                   fixture_matches=len(hits) + len(fhits))
